@@ -386,7 +386,9 @@ class Producer(object):
         # payload (topic/partition) level.
         payloads = []
         for (topic, partition), reqs in reqsByTopicPart.items():
-            if self.client._api_versions != 0:
+            # Message format 1 needs a broker known to support it: while the
+            # versions are undiscovered (None) or unavailable (0) use format 0.
+            if self.client._api_versions:
                 msgSet = create_message_set(reqs, self.codec, magic=1)
             else:
                 msgSet = create_message_set(reqs, self.codec)
